@@ -15,7 +15,7 @@
 (***************************************************************************)
 EXTENDS Naturals, Sequences, TLC
 
-CONSTANTS Kind,      \* "cmd" | "msg" | "sieve"
+CONSTANTS Kind,      \* "cmd" | "msg" | "sieve" | "tmpl" | "hdr"
           MaxArgs
 
 Words == {"CAPABILITY", "NOOP", "LOGOUT", "ID", "STARTTLS", "LOGIN", "AUTHENTICATE",
@@ -29,7 +29,11 @@ Args == {"ATOM", "QUOTED", "QUOTED_OPEN", "QUOTED_ESC", "LIT_SYNC", "LIT_PLUS", 
          "NUM_HUGE", "SEQSET", "SEQSET_BAD", "STAR", "FLAGLIST", "FLAG_BAD", "MBX_INBOX",
          "MBX_UTF7", "MBX_UTF7_OPEN", "MBX_AMP", "EIGHTBIT", "NULBYTE", "BAD_UTF8", "DATE",
          "DATE_BAD", "SECTION", "SECTION_OPEN", "FETCHATT", "SEARCHKEY", "SEARCH_NESTED",
-         "HEADERKEY_8BIT", "STOREITEM", "NOSPACE", "TRAILSP", "BARELF", "LONG"}
+         "HEADERKEY_8BIT", "STOREITEM", "NOSPACE", "TRAILSP", "BARELF", "LONG",
+         \* added with the grammar-shaped lines below
+         "NUM_DIGITS", "LIT_DIGITS", "CHARSET_ODD", "CHARSET_8BIT", "STATUSLIST", "LIT_MSG",
+         "MBX_OTHER", "W_FETCH", "W_STORE", "W_COPY", "W_MOVE", "W_SEARCH", "W_EXPUNGE",
+         "SASL_MECH", "ENABLE_ARG", "ZONE_ODD", "SECTION_ODDNAME"}
 
 SieveWords == {"CAPABILITY", "NOOP", "LOGOUT", "STARTTLS", "AUTHENTICATE", "HAVESPACE",
                "PUTSCRIPT", "LISTSCRIPTS", "SETACTIVE", "GETSCRIPT", "DELETESCRIPT",
@@ -44,16 +48,80 @@ Lines == {"HDR", "HDR_SUBJECT_CR", "HDR_CT_MULTI", "HDR_CT_MULTI_NOBOUND", "HDR_
           "HDR_DATE_BAD", "HDR_ADDR_BAD", "FOLD", "BLANK", "WSONLY", "TEXT", "TEXT_8BIT",
           "TEXT_NUL", "BOUNDARY", "ENDBOUNDARY", "BARECR", "LONGLINE", "NOEOL"}
 
-VARIABLE line
-Init == line = <<>>
+(***************************************************************************)
+(* Grammar-shaped lines (Kind = "tmpl"): every command with the legal      *)
+(* token in every argument slot, and every line one mutation away from     *)
+(* such a line: one slot replaced by ANY argument token, the last slot     *)
+(* dropped, or any token appended.  `mut` says which.  Random token pairs  *)
+(* rarely get past the first argument; these lines reach the code behind   *)
+(* the parser with exactly one thing wrong.                                *)
+(***************************************************************************)
+Templates ==
+  { <<"CAPABILITY">>, <<"NOOP">>, <<"LOGOUT">>, <<"STARTTLS">>, <<"CHECK">>, <<"CLOSE">>,
+    <<"EXPUNGE">>, <<"IDLE">>,
+    <<"ID", "LIST_EMPTY">>, <<"LOGIN", "ATOM", "ATOM">>, <<"LOGIN", "QUOTED", "LIT_PLUS">>,
+    <<"AUTHENTICATE", "SASL_MECH">>, <<"AUTHENTICATE", "SASL_MECH", "ATOM">>,
+    <<"SELECT", "MBX_INBOX">>, <<"EXAMINE", "MBX_INBOX">>, <<"SELECT", "MBX_OTHER">>,
+    <<"CREATE", "MBX_UTF7">>, <<"DELETE", "MBX_OTHER">>, <<"RENAME", "MBX_OTHER", "MBX_UTF7">>,
+    <<"RENAME", "MBX_INBOX", "MBX_UTF7">>,
+    <<"SUBSCRIBE", "MBX_OTHER">>, <<"UNSUBSCRIBE", "MBX_OTHER">>,
+    <<"LIST", "QUOTED", "STAR">>, <<"LSUB", "QUOTED", "STAR">>, <<"LIST", "MBX_OTHER", "MBX_UTF7">>,
+    <<"STATUS", "MBX_INBOX", "STATUSLIST">>, <<"STATUS", "MBX_OTHER", "STATUSLIST">>,
+    <<"APPEND", "MBX_INBOX", "LIT_MSG">>, <<"APPEND", "MBX_OTHER", "FLAGLIST", "DATE", "LIT_MSG">>,
+    <<"APPEND", "MBX_INBOX", "FLAGLIST", "LIT_MSG">>, <<"APPEND", "MBX_INBOX", "DATE", "LIT_MSG">>,
+    <<"SEARCH", "SEARCHKEY">>, <<"SEARCH", "SEARCH_NESTED">>, <<"SEARCH", "SEQSET", "SEARCHKEY">>,
+    <<"FETCH", "SEQSET", "FETCHATT">>, <<"FETCH", "SEQSET", "SECTION">>, <<"FETCH", "STAR", "FETCHATT">>,
+    <<"STORE", "SEQSET", "STOREITEM", "FLAGLIST">>,
+    <<"COPY", "SEQSET", "MBX_OTHER">>, <<"COPY", "SEQSET", "MBX_INBOX">>,
+    <<"MOVE", "SEQSET", "MBX_OTHER">>, <<"MOVE", "SEQSET", "MBX_INBOX">>,
+    <<"UID", "W_FETCH", "SEQSET", "FETCHATT">>, <<"UID", "W_FETCH", "SEQSET", "SECTION">>,
+    <<"UID", "W_STORE", "SEQSET", "STOREITEM", "FLAGLIST">>,
+    <<"UID", "W_COPY", "SEQSET", "MBX_OTHER">>, <<"UID", "W_MOVE", "SEQSET", "MBX_INBOX">>,
+    <<"UID", "W_MOVE", "SEQSET", "MBX_OTHER">>,
+    <<"UID", "W_SEARCH", "SEARCHKEY">>, <<"UID", "W_SEARCH", "SEQSET", "SEARCH_NESTED">>,
+    <<"UID", "W_EXPUNGE", "SEQSET">> }
+
+Mutants(t) ==
+  {<<t, "none">>}
+  \cup {<<[t EXCEPT ![p[1]] = p[2]], "replace">> :
+           p \in {q \in (2..Len(t)) \X Args : q[2] # t[q[1]]}}
+  \cup (IF Len(t) > 1 THEN {<<SubSeq(t, 1, Len(t) - 1), "drop">>} ELSE {})
+  \cup {<<Append(t, a), "append">> : a \in Args}
+
+(***************************************************************************)
+(* Stored messages as <<header name, value class, frame>> (Kind = "hdr"):  *)
+(* which code reads a header depends on its NAME (ENVELOPE, BODYSTRUCTURE, *)
+(* threading, SEARCH keys), what goes wrong on its VALUE class, and where  *)
+(* the header sits (top level, a MIME part, an encapsulated message).      *)
+(***************************************************************************)
+HdrNames == {"Date", "Subject", "From", "Sender", "Reply-To", "To", "Cc", "Bcc", "In-Reply-To",
+             "Message-ID", "References", "Content-Type", "Content-Transfer-Encoding",
+             "Content-Disposition", "Content-Language", "Content-Location", "Content-ID",
+             "Content-Description", "MIME-Version", "Received", "X-Other"}
+HdrVals == {"plain", "empty", "ws", "eightbit", "nul", "barecr", "encword", "encword_bad",
+            "addr1", "addr_multi", "addr_group", "addr_group_empty", "addr_8bit", "addr_broken",
+            "addr_route", "re_deep", "long", "folded", "quoted_odd", "date_ok", "date_bad",
+            "msgid", "msgid_bad", "ct_multi", "ct_multi_nobound", "ct_rfc822", "ct_params_odd",
+            "cte_b64", "cte_qp", "cte_unknown", "disp", "disp_odd", "lang_list", "semicolons",
+            "comment", "utf8"}
+Frames == {"top", "part", "nested"}
+
+VARIABLES line, mut
+Init == IF Kind = "tmpl"
+        THEN \E t \in Templates : \E m \in Mutants(t) : line = m[1] /\ mut = m[2]
+        ELSE IF Kind = "hdr"
+        THEN \E n \in HdrNames, v \in HdrVals, f \in Frames : line = <<n, v, f>> /\ mut = "none"
+        ELSE line = <<>> /\ mut = "none"
 
 First == IF Kind = "cmd" THEN Words ELSE IF Kind = "sieve" THEN SieveWords ELSE Lines
 Rest == IF Kind = "cmd" THEN Args ELSE IF Kind = "sieve" THEN SieveArgs ELSE Lines
 
-Extend == /\ Len(line) <= MaxArgs
+Extend == /\ Kind \notin {"tmpl", "hdr"}
+          /\ Len(line) <= MaxArgs
           /\ \E t \in (IF line = <<>> THEN First ELSE Rest) : line' = Append(line, t)
+          /\ UNCHANGED mut
 
-Spec == Init /\ [][Extend]_line
+Spec == Init /\ [][Extend]_<<line, mut>>
 
 TypeOK == Len(line) <= MaxArgs + 1
 =============================================================================
